@@ -82,6 +82,8 @@ pub fn objtype_name(t: ObjType) -> &'static str {
 
 pub struct Obs {
     pub snap: J,
+    /// read-consistency errors; those starting with "[marks]" are disagreements
+    /// between marks(), spans() and get_marks() (C25's business)
     pub errors: Vec<String>,
     pub objects: Vec<(ObjId, ObjType)>,
     pub stats: ObsStats,
@@ -491,7 +493,7 @@ impl<'a, D: ReadDoc> Walker<'a, D> {
                             for p in pos..(pos + w).min(len) {
                                 if per_pos[p] != ms {
                                     self.err(format!(
-                                        "text {}: spans() marks {} at position {p} differ from marks() {}",
+                                        "[marks] text {}: spans() marks {} at position {p} differ from marks() {}",
                                         exid_str(obj),
                                         J::Object(ms.clone()),
                                         J::Object(per_pos[p].clone())
@@ -523,7 +525,7 @@ impl<'a, D: ReadDoc> Walker<'a, D> {
                     let mj = markset_json(Some(&ms));
                     if mj != per_pos[p] {
                         self.err(format!(
-                            "text {}: get_marks({p}) = {} but marks() covers it with {}",
+                            "[marks] text {}: get_marks({p}) = {} but marks() covers it with {}",
                             exid_str(obj),
                             J::Object(mj),
                             J::Object(per_pos[p].clone())
@@ -583,6 +585,33 @@ pub fn canon_marks(per_pos: &[Map<String, J>]) -> J {
     }
     out.sort_by(|a, b| (a.1, &a.0, a.2).cmp(&(b.1, &b.0, b.2)));
     J::Array(out.into_iter().map(|(n, s, e, v)| json!([s, e, n, v])).collect())
+}
+
+impl Obs {
+    pub fn core_errors(&self) -> Vec<String> {
+        self.errors.iter().filter(|e| !e.starts_with("[marks]")).cloned().collect()
+    }
+    pub fn mark_errors(&self) -> Vec<String> {
+        self.errors.iter().filter(|e| e.starts_with("[marks]")).cloned().collect()
+    }
+}
+
+/// remove the "marks" entries of every text object (for properties that do not cover marks)
+pub fn strip_marks(j: &J) -> J {
+    match j {
+        J::Object(m) => {
+            let mut o = Map::new();
+            for (k, v) in m {
+                if k == "marks" && m.get("type").and_then(|t| t.as_str()) == Some("text") {
+                    continue;
+                }
+                o.insert(k.clone(), strip_marks(v));
+            }
+            J::Object(o)
+        }
+        J::Array(a) => J::Array(a.iter().map(strip_marks).collect()),
+        x => x.clone(),
+    }
 }
 
 pub fn observe<D: ReadDoc>(d: &D, heads: Option<&[ChangeHash]>) -> Obs {
